@@ -47,7 +47,8 @@ namespace nmtools::index
             
             auto src_i = (src_1 < src_2 ? src_1 : src_2);
 
-            at(result,r_idx) = src_i;
+            // an offset beyond the corner selects an empty diagonal (as in numpy)
+            at(result,r_idx) = (src_i < 0 ? 0 : src_i);
         }
         
         return result;
@@ -77,8 +78,11 @@ namespace nmtools::index
             at(result,i) = idx;
         }
 
-        at(result,axis1) = at(indices,meta::ct_v<-1>);
-        at(result,axis2) = at(indices,meta::ct_v<-1>) + offset;
+        // offset >= 0: element (i, i+offset); offset < 0: element (i-offset, i)  (as in numpy)
+        auto m_idx    = static_cast<nm_index_t>(at(indices,meta::ct_v<-1>));
+        auto m_offset = static_cast<nm_index_t>(offset);
+        at(result,axis1) = (m_offset < 0) ? (m_idx - m_offset) : m_idx;
+        at(result,axis2) = (m_offset > 0) ? (m_idx + m_offset) : m_idx;
 
         return result;
     }
